@@ -74,7 +74,8 @@ impl Drop for Jail {
     }
 }
 
-fn encode_pkg(entries: &[Value], flat: bool, jail: &Path) -> Vec<u8> {
+fn encode_pkg(entries: &[Value], enc: &str, jail: &Path) -> Vec<u8> {
+    let flat = enc != "plain";
     let n = entries.len();
     let mut dirnames: Vec<Vec<u8>> = vec![];
     let mut dirindex = vec![];
@@ -88,7 +89,10 @@ fn encode_pkg(entries: &[Value], flat: bool, jail: &Path) -> Vec<u8> {
         let comps: Vec<String> = e["comps"].as_array().unwrap().iter().map(|c| c.as_str().unwrap().to_string()).collect();
         let full_dir = format!("/{}", comps[..comps.len() - 1].iter().map(|c| format!("{c}/")).collect::<String>());
         // flat: "/" is the only directory name and the base name holds the rest of the path
-        let (dir, base) = if flat { ("/".to_string(), comps.join("/")) } else { (full_dir.clone(), comps[comps.len() - 1].clone()) };
+        // abs: an absolute base name that names <jail>/<path>
+        let (dir, base) = if enc == "abs" { ("/".to_string(), format!("{}/{}", jail.display(), comps.join("/"))) }
+                          else if flat { ("/".to_string(), comps.join("/")) } else { (full_dir.clone(), comps[comps.len() - 1].clone()) };
+        let arch_name = if enc == "abs" { format!("./{base}") } else { format!(".{}{}", full_dir, comps[comps.len() - 1]) };
         let di = match dirnames.iter().position(|d| d == dir.as_bytes()) { Some(k) => k, None => { dirnames.push(dir.clone().into_bytes()); dirnames.len() - 1 } };
         dirindex.push(di as u32);
         basenames.push(base.into_bytes());
@@ -105,7 +109,7 @@ fn encode_pkg(entries: &[Value], flat: bool, jail: &Path) -> Vec<u8> {
         sizes.push(content.len() as u32);
         links.push(if kind == "link" { target.into_bytes() } else { vec![] });
         digests.push(if kind == "file" { hex(&Sha256::digest(&content)).into_bytes() } else { vec![] });
-        archive.extend_from_slice(&newc_entry(&format!(".{}{}", full_dir, comps[comps.len() - 1]), mode, &content, i as u32 + 1));
+        archive.extend_from_slice(&newc_entry(&arch_name, mode, &content, i as u32 + 1));
     }
     archive.extend_from_slice(&newc_entry("TRAILER!!!", 0, &[], 0));
     let bv = |xs: &Vec<Vec<u8>>| Value::Array(xs.iter().map(|x| json!(x)).collect());
@@ -170,10 +174,10 @@ pub fn run(args: &Args) {
             let c: Value = serde_json::from_str(line).unwrap();
             let j = Jail::new(&format!("g{i}"));
             let flat = c["flat"].as_bool().unwrap_or(false);
-            let bytes = encode_pkg(c["entries"].as_array().unwrap(), flat, &j.jail);
+            let bytes = encode_pkg(c["entries"].as_array().unwrap(), c["mode"].as_str().unwrap_or("plain"), &j.jail);
             let (outcome, outside, inside) = run_extract(&j, &bytes);
             let ev = if outcome.starts_with("panic") { "Panic" } else { "Extract" };
-            t.emit(json!({"event":ev,"case":i,"entries":c["entries"],"flat":flat,"naive_escapes":c["naive_escapes"],"model_benign":c["benign"],
+            t.emit(json!({"event":ev,"case":i,"entries":c["entries"],"flat":flat,"mode":c["mode"],"naive_escapes":c["naive_escapes"],"model_benign":c["benign"],
                           "outcome":outcome,"outside_diff":outside,"inside":inside}));
         }
     }
